@@ -217,6 +217,15 @@ func (s *pxState) originHandler(w http.ResponseWriter, r *http.Request) {
 	if cp.etag != "" {
 		h.Set("ETag", cp.etag)
 	}
+	not304Extra := func() {
+		// some origins decorate their 304s with header fields of their own: the stored representation keeps the fields
+		// it was stored with (Content-Type of the body it has)
+		if cp.ver%2 == 0 {
+			w.Header().Set("Content-Type", "application/x-other") // (net/http suppresses this one on a 304)
+			w.Header().Set("Content-Encoding", "gzip")
+			w.Header().Set("X-Keep", "from-the-304")
+		}
+	}
 	if cp.lm != "" {
 		h.Set("Last-Modified", cp.lm)
 	}
@@ -235,6 +244,7 @@ func (s *pxState) originHandler(w http.ResponseWriter, r *http.Request) {
 	}
 	if cp.cond {
 		if inm := r.Header.Get("If-None-Match"); inm != "" && cp.etag != "" && inm == cp.etag {
+			not304Extra()
 			w.WriteHeader(304)
 			return
 		}
@@ -244,6 +254,7 @@ func (s *pxState) originHandler(w http.ResponseWriter, r *http.Request) {
 			return a == b || (ea == nil && eb == nil && ta.Equal(tb))
 		}
 		if ims := r.Header.Get("If-Modified-Since"); ims != "" && cp.lm != "" && sameInstant(ims, cp.lm) && r.Header.Get("If-None-Match") == "" {
+			not304Extra()
 			w.WriteHeader(304)
 			return
 		}
@@ -463,7 +474,7 @@ func init() {
 					dflt, _ := strconv.Atoi(f[6])
 					// "limit" or "limit/shards": a small limit with few shards puts the cache under pressure
 					// (full-cache stores, store-triggered evictions that cannot free the caller's own shard)
-					lf := strings.SplitN(f[9], "/", 2)
+					lf := strings.SplitN(f[9], "/", 3)
 					limit, _ := strconv.ParseInt(lf[0], 10, 64)
 					shards := 8
 					if len(lf) == 2 {
@@ -479,6 +490,13 @@ func init() {
 					cfg.Cache.MaxCacheSize.Overwrite(bytesize.ByteSize(limit))
 					cfg.Cache.CleanupInterval.Overwrite(duration.Duration(time.Hour))
 					cfg.Cache.LockShards.Overwrite(shards)
+					if len(lf) == 3 {
+						// "limit/shards/budget": the memory budget percentage (0 = the memory cache may hold nothing: every store is
+						// refused and every request is answered by a direct fetch)
+						bp, _ := strconv.Atoi(lf[2])
+						cfg.Cache.Memory.MemoryBudgetPercent.Overwrite(bp)
+						o.Count("budget:" + lf[2])
+					}
 					s.dir = fmt.Sprintf("%s/c%d", base, s.seq%4)
 					cfg.Cache.File.Dir.Overwrite(s.dir)
 					if s.backend == "file" {
@@ -664,7 +682,7 @@ func init() {
 					}
 					return fmt.Sprintf("st=%d xc=%s cs=%s age=%s body=%s cl=%s cr=%s etag=%s lm=%s ar=%s h=%s%s up=[%s]", resp.StatusCode, xc, hx0Empty(cs), plain("Age"),
 						s.describeBody(id, resp, b, method), cl, plain("Content-Range"), g("ETag"), lmSym, plain("Accept-Ranges"),
-						canonHeaders(resp.Header, []string{"Set-Cookie", "Vary", "Link", "Warning", "X-Keep", "X-Hop", "X-Hop2", "X-Hop3", "X-Lower-Case", "Keep-Alive", "Proxy-Authenticate", "Trailer", "Upgrade", "Content-Type", "Location", "Via"}), trunc, up)
+						canonHeaders(resp.Header, []string{"Set-Cookie", "Vary", "Link", "Warning", "X-Keep", "X-Hop", "X-Hop2", "X-Hop3", "X-Lower-Case", "Keep-Alive", "Proxy-Authenticate", "Trailer", "Upgrade", "Content-Type", "Location", "Via", "Content-Encoding"}), trunc, up)
 				case "shift":
 					ms, _ := strconv.ParseInt(f[2], 10, 64)
 					s.hooks().VerifShiftClock(time.Duration(ms) * time.Millisecond)
@@ -690,6 +708,12 @@ func init() {
 					time.Sleep(2 * time.Millisecond)
 					o.Count("op:setpolicy")
 					return "policy-set"
+				case "setbudget": // pct : the memory budget changes on the RUNNING proxy (0 = from now on nothing may be stored)
+					pct, _ := strconv.Atoi(f[2])
+					s.cfg.Cache.Memory.MemoryBudgetPercent.Overwrite(pct)
+					time.Sleep(3 * time.Millisecond) // the cache's listener runs asynchronously
+					o.Count("op:setbudget")
+					return "budget-set"
 				case "abort2": // id k chunked(0|1) : EVERY upstream GET of the next exchange (the shared fetch and the direct fallback) is cut after k bytes
 					id, _ := strconv.Atoi(f[2])
 					k, _ := strconv.Atoi(f[3])
@@ -787,7 +811,7 @@ func genProxyTrace(c runCfg, o *Out, emit func(...string)) {
 		if r.Chance(12) {
 			// cache under pressure: the model cannot know which stores succeed and what gets evicted; in these traces
 			// only the cache-independent predicates are judged (a complete answer, never the proxy's own error, no crash)
-			limit = []string{"1500/1", "800/1", "2500/2", "300/1"}[r.Intn(4)]
+			limit = []string{"1500/1", "800/1", "2500/2", "300/1", "1000000/4/0", "1000000/7/0"}[r.Intn(6)]
 		}
 		emit("px", "reset", backend, transport, b01(25), b01(25), itoa(dflt), b01(30), b01(50), limit)
 		lastEtag := map[int]string{}
@@ -861,6 +885,19 @@ func genProxyTrace(c runCfg, o *Out, emit func(...string)) {
 		for i := 0; i < nops; i++ {
 			id := r.Intn(nres)
 			switch x := r.Intn(100); {
+			case x >= 76 && x < 84 && limit != "1000000" && backend == "mem":
+				// under cache pressure the operator takes the memory budget away (and gives it back): requests keep being answered
+				// (one resource is stored first, so that the store attempted after the budget is gone finds the cache non-empty)
+				other := (id + 1) % nres
+				emit("px", "setbudget", "50")
+				ver++
+				emit("px", "origin", itoa(other), fmt.Sprintf("ver=%d;size=100;status=200;mode=ignore", ver))
+				emit("px", "req", itoa(other), "GET", "-", "-", "-", "0", "-", "-")
+				emit("px", "setbudget", itoa([]int{0, 0, 50}[r.Intn(3)]))
+				ver++
+				emit("px", "origin", itoa(id), fmt.Sprintf("ver=%d;size=100;status=200;mode=ignore", ver))
+				emit("px", "req", itoa(id), "GET", "-", "-", "-", "0", "-", "-")
+				emit("px", "req", itoa(other), "GET", "-", "-", "-", "0", "-", "-")
 			case x >= 84 && x < 86 && limit == "1000000":
 				// the operator changes the cache policy at run time: the following exchanges are judged by the NEW policy
 				emit("px", "setpolicy", itoa(r.Intn(2)), itoa(r.Intn(2)), itoa([]int{5, 30, 120}[r.Intn(3)]))
